@@ -647,6 +647,40 @@ def body(chk, db, cfgname):
     thorough = chk.tier == "thorough"
     # ================================================================== R1
     r1 = chk.rule("C04-R1", "term factories build the documented monomial (operator order, labels, orbitals, spins, value), for every equality pattern of their arguments", "F7 summaries vs documentation", 11)
+    # the constructors of Lattice::Term themselves (user-built terms go through them): each member receives its own input,
+    # over all N factors; the copy carries all six members.  Decided by interpreting the extracted constructor bodies on one
+    # record with pairwise different arrays (a constructor only copies).
+    ctors = [x for x in db.fns_named("Pomerol::Lattice::Term::Term") if x.kind == "ctor" and x.body is not None and x.body >= 0]
+    full = [x for x in ctors if len(x.params) == 6]
+    copyc = [x for x in ctors if len(x.params) == 1 and "Term" in (x.params[0].get("t") or "")]
+    site = "Pomerol::Lattice::Term::Term/6"
+    with r1.guard(site, (full[0] if full else ctors[0]).loc() if ctors else "?", cfgname):
+        if len(full) != 1:
+            raise AnalysisBroken("Term(N, sequence, value, labels, orbitals, spins) not found")
+        blank = lambda: Obj("Term", **{T_ + "N": 0, T_ + "OperatorSequence": [], T_ + "SiteLabels": [], T_ + "Spins": [], T_ + "Orbitals": [], T_ + "Value": sp.Integer(0)})
+        V_ = sp.Symbol("V")
+        seq_, lab_, orb_, spn_ = [1, 0, 1], ["a", "b", "c"], [0, 1, 2], [1, 0, 2]
+        try:
+            t_ = Interp(db, PRIMS).run_ctor(full[0], [3, list(seq_), V_, list(lab_), list(orb_), list(spn_)], blank())
+        except Thrown as e_:
+            t_ = None
+            r1.bad(site, full[0].loc(), "the constructor reads outside its input arrays (%s)" % e_.tt, cfgname)
+        if t_ is not None:
+            got_ = (t_.f[T_ + "N"], [int(bool(x)) for x in t_.f[T_ + "OperatorSequence"]], t_.f[T_ + "SiteLabels"], t_.f[T_ + "Orbitals"], t_.f[T_ + "Spins"], t_.f[T_ + "Value"])
+            if got_ == (3, seq_, lab_, orb_, spn_, V_):
+                r1.ok(site, full[0].loc(), "N, OperatorSequence, SiteLabels, Orbitals, Spins (all N entries each) and Value are taken from the arguments of the same role", cfgname)
+            else:
+                names_ = ["N", "OperatorSequence", "SiteLabels", "Orbitals", "Spins", "Value"]
+                wrong_ = [names_[i_] for i_, (a_, b_) in enumerate(zip(got_, (3, seq_, lab_, orb_, spn_, V_))) if a_ != b_]
+                r1.bad(site, full[0].loc(), "a term built with the full constructor does not carry its arguments in: %s (e.g. %s = %s)" % (", ".join(wrong_), wrong_[0], got_[names_.index(wrong_[0])]), cfgname)
+            if len(copyc) == 1:
+                site2 = "Pomerol::Lattice::Term::Term(copy)"
+                c_ = Interp(db, PRIMS).run_ctor(copyc[0], [t_], blank())
+                same_ = all(c_.f[k_] == t_.f[k_] for k_ in t_.f)
+                if same_:
+                    r1.ok(site2, copyc[0].loc(), "the copy carries all six members", cfgname)
+                else:
+                    r1.bad(site2, copyc[0].loc(), "a copied term differs from its source in: %s" % ", ".join(k_.split("::")[-1] for k_ in t_.f if c_.f[k_] != t_.f[k_]), cfgname)
     for nm, np_ in FACTORIES:
         f = db.fn(TP + nm, nparams=np_)
         site = "%s%s/%d" % (TP, nm, np_)
